@@ -72,6 +72,15 @@ def impl_chunk(items):
                 val = p if k == 0 else np.array(p, dtype=int) if k == 1 else np.array(p, dtype=int).reshape(-1, 1) if k == 2 else RaggedArray(p, dtype=int)
                 a[to_py(idx)] = val; e = a.tolist()
             except Exception: e = None
+            # a boolean row mask spelled as a plain Python list must write the same cells as the ndarray spelling
+            rs0 = idx[0] if isinstance(idx, tuple) and len(idx) == 2 else idx
+            if isinstance(rs0, list) and rs0 and isinstance(rs0[0], bool):
+                a2 = RaggedArray(R, dtype=int)
+                try:
+                    raw = (list(rs0), to_py(idx)[1]) if isinstance(idx, tuple) else list(rs0)
+                    a2[raw] = val; e2 = a2.tolist()
+                except Exception: e2 = None
+                if e2 != e: e = {"ndarray mask": e, "python-list mask": e2}
             out.append(("setitem " + show(R) + " " + show(enc_index(idx)) + " " + show(v), e, len(R) >= 2 and sel not in (None, [1, []], [2, []]), name))
     return out
 
